@@ -8,6 +8,9 @@
 //!   kdf.mnemonic mnemonic flag passphrase     ExtendedPrivateKey::from_mnemonic -> private key; chain code
 //!   kdf.seed seed                             ExtendedPrivateKey::from_seed -> private key; chain code
 //!   kdf.pbkdf2_impl pw salt algo rounds len   KDF::pbkdf2_impl called directly
+//!   kdf.mnemonic_route mnemonic flag pass     from_mnemonic / from_mnemonic_and_passphrase_impl vs the explicit route
+//!                                             from_seed(KDF::pbkdf2(mnemonic as given, salt, SHA512, 2048, 64)): OK:<eq>;<eq>
+//!   kdf.mnemonic_kat m/flag/pass/priv/chain   (one argument) from_mnemonic -> private key; chain code
 //!   digest.oneshot adapter msg                D::digest(msg); output size; block size
 //!   digest.seq adapter start step...          start: d | t | f (Hash160::new(true/false)) | g0=<pre> | g1=<pre> (get_hash_digest)
 //!       steps: u=<d> Update::update, h=<d> Digest::chain, r reverse(), x reset,
@@ -223,6 +226,45 @@ pub fn run(op: &str, args: &[String]) -> Option<String> {
                     };
                     let k = if f == "pbkdf2" { KDF::pbkdf2(&pw, Some(salt), algo, rounds, len) } else { KDF::pbkdf2_impl(&pw, &salt, algo, rounds, len) };
                     format!("OK:{};{}", show_bytes(&k.get_hash().to_bytes()), show_bytes(&k.get_salt()))
+                }
+                "mnemonic_route" => {
+                    if args.len() != 3 {
+                        return Some("BADARG".into());
+                    }
+                    let (m, pass) = match (arg_bytes(args, 0), args[1].as_str(), arg_bytes(args, 2)) {
+                        (Some(m), "0", Some(_)) => (m, None),
+                        (Some(m), "1", Some(p)) => (m, Some(p)),
+                        _ => return Some("BADARG".into()),
+                    };
+                    let keys = |r: Result<ExtendedPrivateKey, bsv::BSVErrors>| r.ok().map(|x| (x.get_private_key().to_bytes(), x.get_chain_code()));
+                    let salt = pass.clone().unwrap_or_else(|| b"mnemonic".to_vec());
+                    let seed = KDF::pbkdf2(&m, Some(salt), PBKDF2Hashes::SHA512, 2048, 64).get_hash().to_bytes();
+                    let want = keys(ExtendedPrivateKey::from_seed(&seed));
+                    let a = keys(ExtendedPrivateKey::from_mnemonic(&m, pass.clone()));
+                    let b = keys(ExtendedPrivateKey::from_mnemonic_and_passphrase_impl(&m, pass));
+                    format!("OK:{};{}", (a == want) as u8, (b == want) as u8)
+                }
+                "mnemonic_kat" => {
+                    if args.len() != 1 {
+                        return Some("BADARG".into());
+                    }
+                    let parts: Vec<&str> = args[0].split('/').collect();
+                    if parts.len() != 5 {
+                        return Some("BADARG".into());
+                    }
+                    let (m, pass) = match (expand(parts[0]), parts[1], expand(parts[2])) {
+                        (Some(m), "0", Some(_)) => (m, None),
+                        (Some(m), "1", Some(p)) => (m, Some(p)),
+                        _ => return Some("BADARG".into()),
+                    };
+                    match (hex::decode(parts[3]), hex::decode(parts[4])) {
+                        (Ok(a), Ok(b)) if a.len() == 32 && b.len() == 32 => {}
+                        _ => return Some("BADARG".into()),
+                    }
+                    match ExtendedPrivateKey::from_mnemonic(&m, pass) {
+                        Ok(x) => format!("OK:{};{}", hex::encode(x.get_private_key().to_bytes()), hex::encode(x.get_chain_code())),
+                        Err(_) => "ERR".into(),
+                    }
                 }
                 "seed" | "mnemonic" => {
                     let r = if f == "seed" {
